@@ -26,7 +26,7 @@ FirstOf(cs) == IF cs = <<>> THEN bad
                ELSE IF cs[1][1] /\ Checked(cs[1][2]) THEN Flag(cs[1][2], cs[1][3]) ELSE FirstOf(Tail(cs))
 Is(e) == l <= Len(Rec) /\ Ev.ev = e /\ l' = l + 1
 Put(f, k, v) == IF k \in DOMAIN f THEN [f EXCEPT ![k] = v] ELSE f @@ (k :> v)
-Mut(m) == m \in {"add", "add_nc", "hang", "take", "take_hang", "fmut"}      \* exclusive access to the target
+Mut(m) == m \in {"add", "add_nc", "hang", "take", "take_hang", "fmut", "bump"}      \* exclusive access to the target
 Cancellable(m) == m # "add_nc"
 \* calls[c] = [m, k, cl, ep, st: "pending"|"ok"|"err"|"cancel", runs, xst: "none"|"run"|"end"|"drop", ret, polls]
 Known(c) == c \in DOMAIN calls
@@ -58,7 +58,7 @@ XEnd == /\ Is("x_end")
         /\ LET c == Ev.call  k == Known(c)  it == IF k THEN calls[c] ELSE [m |-> "", k |-> 0, ep |-> 0] IN
            /\ calls' = IF k THEN [calls EXCEPT ![c].xst = "end", ![c].ret = Ev.ret] ELSE calls
            /\ running' = running \ {c}
-           /\ val' = IF Ev.m \in {"add", "add_nc", "fmut"} THEN val + it.k ELSE val
+           /\ val' = IF Ev.m \in {"add", "add_nc", "fmut"} THEN val + it.k ELSE IF Ev.m = "bump" THEN val + 2 * it.k ELSE val
            /\ consumed' = (consumed \/ Ev.m = "take")
            /\ oversized' = (oversized \/ (Ev.m = "big" /\ Ev.ret > 300 /\ it.ep = 2))
            /\ bad' = FirstOf(<<
@@ -66,6 +66,7 @@ XEnd == /\ Is("x_end")
                 <<Ev.before # val, "C12", "target state changed under a running execution (not atomic)">>,
                 <<Ev.m \in {"add", "add_nc", "fmut"} /\ Ev.after # val + it.k, "C12", "mutation result is not state + argument: arguments mixed up or update lost">>,
                 <<Ev.m \in {"get", "take", "picky"} /\ (Ev.after # val \/ Ev.ret # val), "C12", "read result differs from the target state">>,
+                <<Ev.m = "bump" /\ Ev.after # val + 2 * it.k, "C12", "mutation result is not state + argument: arguments mixed up or update lost">>,
                 <<Ev.m = "fconst" /\ Ev.ret # val + it.k, "C12", "function result does not belong to the arguments passed">> >>)
         /\ UNCHANGED <<cut, srvEnded, undec, clients>>
 XDrop == /\ Is("x_drop")
@@ -79,7 +80,7 @@ XDrop == /\ Is("x_drop")
          /\ UNCHANGED <<val, cut, srvEnded, oversized, undec, consumed, clients>>
 Ret == /\ Is("c_ret")
        /\ LET c == Ev.call  it == calls[c]
-              wellFormed == it.m \in {"get", "add", "add_nc", "fmut", "fconst", "fonce"} IN
+              wellFormed == it.m \in {"get", "add", "add_nc", "bump", "fmut", "fconst", "fonce"} IN
           /\ calls' = [calls EXCEPT ![c].st = Ev.r]
           /\ bad' = IF Ev.r = "ok" THEN FirstOf(<<
                        <<it.xst # "end" \/ it.runs # 1, "C12", "call returned a result although its callee did not run exactly once to completion">>,
